@@ -364,6 +364,48 @@ func streamC02(r *Rand, n int, o *Out) {
 		check(h)
 		o.EmitHist("t", h)
 	}
+	// deterministic: url values of every unusual SHAPE (empty path list, no host, opaque path, drive letters — reached by
+	// parsing under an option or by a setter that stops half-way) used as the base of every kind of reference and as the
+	// target of a second setter, under the default parser, every single option, and the diagnostic pairs. (A catch must not
+	// depend on a draw: the empty-path file base of wave 9's S92 came only from random histories before.)
+	{
+		cfgs := []*Cfg{defaultCfg, cfgFail, cfgReportFail}
+		for i := range optSpecs {
+			cfgs = append(cfgs, cfgFromMask(r.Fork(), 1<<uint(i)))
+			if i >= 2 && (optSpecs[i].Name == "SkipTrailingSlashNormalization" || optSpecs[i].Name == "AllowSettingPathForNonBaseUrl" || optSpecs[i].Name == "CollapseConsecutiveSlashes") {
+				cfgs = append(cfgs, cfgFromMask(r.Fork(), (1<<uint(i))|2))
+			}
+		}
+		starts := []string{"file://host", "file://", "file://h?q", "file://h#f", "file:///C:/a", "file:///C|/a", "sc://h", "sc:", "sc:op", "http://h", "sc:/", "file:", "http://h/a/b", "sc://h/..", "file:///"}
+		type pre struct {
+			setter int
+			v      string
+		}
+		pres := []pre{{-1, ""}, {6, "a b"}, {6, ""}, {6, "\\"}, {6, "C|"}, {3, ""}, {0, "file"}, {0, "sc"}, {0, "http"}, {7, ""}, {8, ""}, {4, ""}, {5, ""}}
+		refs := []string{"/x", "\\x", "/", "x", "?q", "#f", "//h2", "/C:/a", "", "..", "C|/x", "file:/y", "./"}
+		for _, c := range cfgs {
+			for _, st := range starts {
+				for _, p := range pres {
+					h := &Hist{}
+					k := h.Parse(c, st)
+					if k < 0 {
+						break
+					}
+					if p.setter >= 0 {
+						h.Set(k, p.setter, p.v)
+					}
+					for _, ref := range refs {
+						h.Resolve(k, ref)
+					}
+					h.Set(k, 6, "/C|/..")
+					h.Set(k, 3, "h:1")
+					check(h)
+					o.Count("shape_histories")
+					o.EmitHist("s", h)
+				}
+			}
+		}
+	}
 	// very long inputs (the property names them), on the Go code only — the model is not asked to replay a 256 KB string:
 	// every repetition family, as input, base, reference and setter value, under the default parser, two option sets and
 	// the four predefined profiles. A panic is recovered and reported; a hang is seen by the watchdog.
